@@ -171,6 +171,8 @@ pub enum Ev {
     Hostile { target: HostileTarget, mutation: HostileMut, parser: Parser },
     /// Decapsulate every stored encapsulation with every current user key.
     Audit,
+    /// Read and use the golden objects written by the pinned release (C13).
+    Golden,
 }
 
 impl Ev {
@@ -200,6 +202,7 @@ impl Ev {
             Ev::TamperEnc { .. } => "TamperEnc",
             Ev::Hostile { .. } => "Hostile",
             Ev::Audit => "Audit",
+            Ev::Golden => "Golden",
         }
     }
 }
